@@ -187,8 +187,12 @@ var c06JsKeywordList = func() []c06JsTok {
 	return out
 }()
 
-var c06JsIdentStartRunes = []rune{'a', 'Z', '$', '_', '\u00E9', '\u03C0', '\u01C5', '\u02B0', '\u540D', '\u2182', 0x1D49C, 0x2118, 'x', 'n', 'e'}
-var c06JsIdentContRunes = []rune{'a', 'Z', '$', '_', '0', '9', '\u00E9', '\u540D', 0x0301, 0x0903, '\u0663', '\u203F', 0x200C, 0x200D, 0x00B7, 0x1D49C, 'u'}
+// the low end of every UTF-8 lead-byte class is in both lists: U+00AA U+00B5 U+00BA (lead 0xC2), U+00C0 (0xC3), U+0100 (0xC4),
+// U+0800 (0xE0), U+10000 (0xF0); ID_Continue-only runes (U+00B7, U+0300, ...) and ZWNJ / ZWJ in non-initial position
+var c06JsIdentStartRunes = []rune{'a', 'Z', '$', '_', '\u00E9', '\u03C0', '\u01C5', '\u02B0', '\u540D', '\u2182', 0x1D49C, 0x2118, 'x', 'n', 'e',
+	0x00AA, 0x00B5, 0x00BA, 0x00C0, 0x0100, 0x0800, 0x10000}
+var c06JsIdentContRunes = []rune{'a', 'Z', '$', '_', '0', '9', '\u00E9', '\u540D', 0x0301, 0x0903, '\u0663', '\u203F', 0x200C, 0x200D, 0x00B7, 0x1D49C, 'u',
+	0x00AA, 0x00B5, 0x00BA, 0x00C0, 0x0100, 0x0800, 0x10000, 0x0300}
 
 func c06GenJsIdent(r *Rng) string {
 	var sb strings.Builder
